@@ -250,37 +250,9 @@ func (e *Engine) verifyFunc(fc *FuncContract) (res *FuncResult) {
 	res.entryState = entryState
 	// the frame: fresh memory plus the modifies targets
 	{
-		f := &frame{bound: st.alloc, startSeq: e.allocSeq, all: fc.modAll}
+		f := &frame{entry: entryState, bound: st.alloc, startSeq: e.allocSeq, all: fc.modAll}
 		for _, m := range fc.modifies {
-			mt := e.evalModTarget(st, m)
-			if mt.place != nil {
-				if _, isArr := under(mt.place.typ).(*types.Array); isArr {
-					f.blocks = append(f.blocks, mt.place.addr)
-				} else {
-					f.cells = append(f.cells, cellRange{mt.place.addr, Add(mt.place.addr, I(int64(e.cells(mt.place.typ))))})
-					e.frameArrayBlocks(f, mt.place.addr, mt.place.typ)
-				}
-				continue
-			}
-			v := mt.val
-			t := m.info.TypeOf(m.expr)
-			switch x := v.(type) {
-			case RefV:
-				if pt, ok := under(t).(*types.Pointer); ok {
-					if _, isArr := under(pt.Elem()).(*types.Array); isArr {
-						f.blocks = append(f.blocks, x.t)
-					} else {
-						f.cells = append(f.cells, cellRange{x.t, Add(x.t, I(int64(e.cells(pt.Elem()))))})
-						e.frameArrayBlocks(f, x.t, pt.Elem())
-					}
-				} else {
-					f.maps = append(f.maps, x.t)
-				}
-			case SliceV:
-				f.blocks = append(f.blocks, x.blk)
-			default:
-				e.fail(m.expr, "unsupported modifies target %T", v)
-			}
+			e.addFrameTarget(f, e.evalModTarget(st, m), m)
 		}
 		e.frame = f
 	}
@@ -443,5 +415,35 @@ func (e *Engine) frameArrayBlocks(f *frame, base T, t types.Type) {
 			e.frameArrayBlocks(f, Add(base, I(int64(off))), ft)
 			off += e.cells(ft)
 		}
+	}
+}
+
+func (e *Engine) addFrameTarget(f *frame, mt modTarget, m *Clause) {
+	if mt.place != nil {
+		if _, isArr := under(mt.place.typ).(*types.Array); isArr {
+			f.blocks = append(f.blocks, mt.place.addr)
+		} else {
+			f.cells = append(f.cells, cellRange{mt.place.addr, Add(mt.place.addr, I(int64(e.cells(mt.place.typ))))})
+			e.frameArrayBlocks(f, mt.place.addr, mt.place.typ)
+		}
+		return
+	}
+	t := m.info.TypeOf(m.expr)
+	switch x := mt.val.(type) {
+	case RefV:
+		if pt, ok := under(t).(*types.Pointer); ok {
+			if _, isArr := under(pt.Elem()).(*types.Array); isArr {
+				f.blocks = append(f.blocks, x.t)
+			} else {
+				f.cells = append(f.cells, cellRange{x.t, Add(x.t, I(int64(e.cells(pt.Elem()))))})
+				e.frameArrayBlocks(f, x.t, pt.Elem())
+			}
+		} else {
+			f.maps = append(f.maps, x.t)
+		}
+	case SliceV:
+		f.blocks = append(f.blocks, x.blk)
+	default:
+		e.fail(m.expr, "unsupported modifies target %T", mt.val)
 	}
 }
